@@ -643,7 +643,86 @@ def _replay(case, clause, model, seed):
 
 UNITS = [TimeCorr()]
 
+
+# ------------------------------------------------------------------------------------------------------------------
+# conformance probes of the assumed library contracts this property adds (run under the repository's interpreter)
+
+_PROBES = {
+    "len(set(np.diff(ts)))==1<=>at-least-two-frames-and-all-differences-equal": """
+import numpy as np, random
+rng = random.Random(SEED)
+bad = None
+for trial in range(400):
+    T = rng.choice([1, 1, 2, 3, 4, 6, 9])
+    kind = rng.choice(["even", "even0", "rand", "one-off"])
+    h = rng.choice([1, 2, 10, -3, 1000])
+    ts = [rng.randint(-5, 50) + j * (0 if kind == "even0" else h) for j in range(T)]
+    if kind == "rand":
+        ts = [rng.randint(0, 6) for _ in range(T)]
+    if kind == "one-off" and T >= 3:
+        ts[rng.randrange(1, T)] += rng.choice([1, -1, 7])
+    got = len(set(np.diff(np.array(ts)))) == 1
+    want = T >= 2 and all(ts[j + 1] - ts[j] == ts[1] - ts[0] for j in range(T - 1))
+    if got != want:
+        bad = f"timesteps {ts}: len(set(diff)) == 1 is {got}, contract says {want}"
+        break
+""",
+    "float_array[i]+=complex128-stores-the-real-part": """
+import numpy as np, warnings
+bad = None
+a = np.zeros(3)
+with warnings.catch_warnings():
+    warnings.simplefilter("ignore")
+    a[1] += np.trace(np.matmul(np.eye(2) * (1 + 2j), np.conj(np.eye(2) * (3 + 1j))))
+want = (2 * (1 + 2j) * (3 - 1j)).real
+if a.dtype != np.float64 or abs(a[1] - want) > 1e-12 or a[0] != 0 or a[2] != 0:
+    bad = f"a = {a.tolist()}, expected [0, {want}, 0]"
+""",
+}
+
+
+def _run_probe(name, seed, py=None):
+    import json
+    import os
+    import subprocess
+    py = py or os.environ.get("PYVC_REPLAY_PYTHON", "/venv/bin/python")
+    code = f"SEED = {int(seed)}\n" + _PROBES[name] + "\nimport json; print('PROBE ' + json.dumps({'bad': bad}))\n"
+    try:
+        r = subprocess.run([py, "-c", code], capture_output=True, text=True, timeout=120, cwd="/tmp")
+    except subprocess.TimeoutExpired:
+        return "timeout"
+    for line in r.stdout.splitlines():
+        if line.startswith("PROBE "):
+            return json.loads(line[6:])["bad"]
+    return (r.stderr or "no output").strip().splitlines()[-1:]
+
+
+def extra_checks(tier, seed, repo):
+    import time
+
+    from pyvc.probe import import_probe
+    obs = import_probe([MOD], repo)
+    for name in _PROBES:
+        t0 = time.time()
+        bad = _run_probe(name, seed)
+        ob = {"name": f"library-contract-probe:{name}", "status": "PROVED" if bad is None else "REFUTED", "ms": round((time.time() - t0) * 1000, 1),
+              "backends": ["cpython-probe"], "queries": 1, "replayable": True, "probe": {"kind": "lib", "name": name}}
+        if bad is not None:
+            ob["failed"] = [{"status": "REFUTED", "backend": "cpython-probe", "reason": str(bad), "model": {"probe": name}}]
+        obs.append(ob)
+    return {"obligations": obs}
+
+
+def replay_extra(rec):
+    m = rec.get("model") or {}
+    if m.get("probe") in _PROBES:
+        import sys
+        bad = _run_probe(m["probe"], int(rec.get("seed") or 0), py=sys.executable)
+        return {"ran": True, "failed": bad is not None, "detail": str(bad)}
+    from pyvc.probe import replay_import
+    return replay_import(rec)
+
 MANIFEST = {
-    "text": "time_correlation (real AST, re-read every run), symbolic frame number T >= 1 and particle number N, at a symbolic lag k, for condition of rank 2, 3 (d in {2,3}) and 4 (d x d, d in {2,3}), real and complex, evenly spaced (ts_j = ts_0 + j h, T >= 2) and unevenly spaced / single-frame timesteps: the returned DataFrame has columns (t, time_corr) and T rows; time_corr[k] = C(k)/C(0) with C(k) = 1/(T-k) sum_{n0<T-k} Re sum_i <A[n0+k,i], conj A[n0,i]> for evenly spaced frames (all origins; per-lag origin count T-k, N(T-k) in the tensor branch where it cancels) and C(k) = Re sum_i <A[k,i], conj A[0,i]> otherwise (first frame the only origin); the conjugate is on the earlier frame; time_corr[0] = 1; t[k] = (ts_k - ts_0) dt; divisors non-zero; inputs not written; the CSV write happens iff outputfile is given and receives the returned columns; other ranks raise ValueError. Loop nests are replaced by inductively checked closed forms (loop-init/loop-step), connected to the statement's origin sums by one explicit induction per loop level (lemma obligations, base + step).",
-    "note": "floats as reals (A1); requires C(0) != 0; assumed contracts: len(set(.)) == 1 iff non-empty and all equal (relational), np.diff, np.conj, .real, .sum, np.trace, np.matmul, np.column_stack, pd.DataFrame, to_csv event, numpy complex->float item store keeps the real part; induction principle for the lemma obligations; d enumerated in {2,3}",
+    "text": "time_correlation (real AST, re-read every run), symbolic frame number T >= 1 and particle number N, at a symbolic lag k, for condition of rank 2, 3 (d in {2,3} and symbolic d) and 4 (d x d, d in {2,3}), real and complex, evenly spaced (ts_j = ts_0 + j h, T >= 2) and unevenly spaced / single-frame timesteps: the returned DataFrame has columns (t, time_corr) and T rows; time_corr[k] = C(k)/C(0) with C(k) = 1/(T-k) sum_{n0<T-k} Re sum_i <A[n0+k,i], conj A[n0,i]> for evenly spaced frames (all origins; per-lag origin count T-k, N(T-k) in the tensor branch where it cancels) and C(k) = Re sum_i <A[k,i], conj A[0,i]> otherwise (first frame the only origin); the conjugate is on the earlier frame; time_corr[0] = 1; t[k] = (ts_k - ts_0) dt; divisors non-zero; inputs not written; the CSV write happens iff outputfile is given and receives the returned columns; other ranks raise ValueError. Loop nests are replaced by inductively checked closed forms (loop-init/loop-step), connected to the statement's origin sums by one explicit induction per loop level (lemma obligations, base + step).",
+    "note": "floats as reals (A1); requires C(0) != 0; assumed contracts: len(set(.)) == 1 iff non-empty and all equal (relational), np.diff, np.conj, .real, .sum, np.trace, np.matmul, np.column_stack, pd.DataFrame, to_csv event, numpy complex->float item store keeps the real part; induction principle for the lemma obligations; d enumerated in {2,3} for tensors, also symbolic for vectors",
 }
